@@ -156,6 +156,33 @@ def run(ctx):
         if r != want:
             env_bad.append("To/Cc/Bcc = %s/%s/%s (- absent, 0 empty list): %s, expected %s" % (sp + (r.replace("\t", " / "), want.replace("\t", " / "))))
     ctx.count(len(specs))
+    # the fourth way: any JSON text offered to the Envelope deserializer (FileTransport::read): whatever shape is accepted, the result has a
+    # recipient, its addresses are addresses (they re-parse), and the documented shape reads back what was written
+    A, B = "a@x.example", "b@y.example"
+    fps = [[], [A], [A, B], "", " ", ",", ", ,", A, A + "," + B, None, 0, {}, [None], [""], [[]], [A, ""], {"0": A}, False, [" "], ""]
+    rps = [None, A, "", [], 0]
+    jcases = [json.dumps({"forward_path": fp, "reverse_path": rp}) for fp in fps for rp in rps]
+    jcases += ['{"forward_path":[]}', '{"reverse_path":null}', '{}', '[]', 'null', '""', '{"forward_path":["%s"]}' % A, '{"reverse_path":null,"forward_path":[],"forward_path":["%s"]}' % A,
+               '{"forward_path":["%s"],"forward_path":[]}' % A, '[null,[]]', '[null,["%s"]]' % A, '[null,""]', '["%s",""]' % A]
+    jr = run_impl(["envelope.json\t" + hx(U(j)) for j in jcases])
+    ctx.count(len(jcases))
+    for j, r in zip(jcases, jr):
+        f = r.split("\t")
+        if f[0] == "panic":
+            env_bad.append("deserializing the envelope %s panics" % j)
+        elif f[0] == "ok":
+            tos = [unhx(x) for x in f[3].split("|")] if len(f) > 3 and f[3] else []
+            if int(f[1]) < 1 or len(tos) != int(f[1]):
+                env_bad.append("the envelope %s deserializes to an envelope with %s recipients" % (j, f[1]))
+        try:
+            d = json.loads(j)
+        except Exception:
+            d = None
+        if isinstance(d, dict) and isinstance(d.get("forward_path"), list) and d["forward_path"] and all(x in (A, B) for x in d["forward_path"]) and d.get("reverse_path", 0) in (None, A) \
+                and j.count("forward_path") == 1:
+            want = "ok\t%d\t%s\t%s" % (len(d["forward_path"]), hx(U(d["reverse_path"])) if d["reverse_path"] else "!", "|".join(hx(U(x)) for x in d["forward_path"]))
+            if r != want:
+                env_bad.append("the envelope %s does not read back: %s" % (j, r))
     # accepted addresses on a sendmail command line: with and without a sender, recipients that begin with '-' must be read as operands by a
     # program that follows the POSIX utility conventions (never as options)
     sm_envs = [(fr, to) for fr in (None, b"s@example.com", b"-s@example.com") for to in ([b"-f@example.com"], [b"-bp@example.org", b"x@y.org"], [b"a@b.org", b"-oQ/tmp@x.org"], [b"--@example.com"], [b"-t@x.org", b"-i@x.org"])]
@@ -175,7 +202,7 @@ def run(ctx):
                                  "addr.new": {"cases": len(pairs), "disagreements": len(pdiff)}}
     ctx.cov["oracle"] = {"safety_and_rejoin_on_impl": {"accepted_checked": accepted, "failures": len(obad)},
                          "new_iff_parse_on_impl": {"pairs": len(pairs), "unexplained": len(iff_bad), "known_F15": f15},
-                         "serde_shapes": {"cases": len(ser), "failures": len(ser_bad)}, "envelope_nonempty_and_sendmail_operands": {"cases": 3 + len(specs) + len(sm_envs), "failures": len(env_bad)},
+                         "serde_shapes": {"cases": len(ser), "failures": len(ser_bad)}, "envelope_nonempty_and_sendmail_operands": {"cases": 3 + len(specs) + len(sm_envs) + len(jcases), "failures": len(env_bad)},
                          "oracle_hypotheses": {"alnum_exhaustive": al, "idna_ip_answers_checked": len(doms), "violations": len(hyp_bad)}}
     ctx.cov["exhaustive"] = True
     ctx.cov["rule"] = ("Address::from_str on all strings over a 12-symbol alphabet up to length %d plus boundary/IDNA/IP/quoted cases and seeded random strings; Address::new on all splits of strings over an 8-symbol alphabet up to length %d; "
